@@ -602,3 +602,175 @@ pub fn paren_sensitive_flags(cx: &mut Ctx, g: &Grammar) {
         cx.fail(rule, &format!("{}/paren-transparent", rule), "parser/src/python.lalrpop", "could not find the paren-transparent Atom alternatives (anchor moved: fail closed)");
     }
 }
+
+
+/// O2: a list that an action builds by appending grows in source order.
+pub fn list_building_order(cx: &mut Ctx, g: &Grammar, rule: &str) {
+    cx.rule(rule, "lists keep source order: in every grammar action, successive `v.push(x)` / `v.extend(xs)` / `v.push_str(s)` on one vector append values whose grammar bindings occur in that order in the alternative (and after the binding the vector itself comes from), and `v.insert(0, x)` prepends a binding that precedes it — statements joined by `;`, decorators, elif clauses, comparison chains and argument lists cannot come out permuted");
+    cx.floor(rule, 8);
+    for (d, a, e) in actions(g) {
+        let mut flow = Flow::with_locations(a, false);
+        flow.run_expr(e);
+        // appends in evaluation (source text) order
+        let mut calls: Vec<(String, String, syn::Expr, usize)> = vec![]; // (receiver, method, value, line)
+        sm::for_each_expr(e, |x| {
+            if let syn::Expr::MethodCall(mc) = x {
+                let m = mc.method.to_string();
+                if let Some(recv) = sm::as_ident(sm::peel(&mc.receiver)) {
+                    if (m == "push" || m == "extend" || m == "push_str") && mc.args.len() == 1 {
+                        calls.push((recv, m, mc.args[0].clone(), sm::line(mc.method.span())));
+                    } else if m == "insert" && mc.args.len() == 2 && sm::tsc(&mc.args[0]) == "0" {
+                        calls.push((recv, "insert0".into(), mc.args[1].clone(), sm::line(mc.method.span())));
+                    }
+                }
+            }
+        });
+        if calls.is_empty() {
+            continue;
+        }
+        let mut receivers: Vec<String> = vec![];
+        for c in &calls {
+            if !receivers.contains(&c.0) {
+                receivers.push(c.0.clone());
+            }
+        }
+        for r in receivers {
+            // where the vector itself comes from (a binding of the alternative), if it does
+            // (read before the action runs: appending joins the appended positions into the vector's own)
+            let recv_expr: syn::Expr = syn::parse_str(&r).unwrap();
+            let flow0 = Flow::with_locations(a, false);
+            let (mut last, _) = flow0.pos_of(&recv_expr);
+            let mut first = last.clone();
+            let mut ok = true;
+            let mut n = 0;
+            for (_, m, val, _line) in calls.iter().filter(|c| c.0 == r) {
+                let (p, unknown) = flow.pos_of(val);
+                let Some(p) = p else { continue };
+                if unknown {
+                    continue;
+                }
+                n += 1;
+                if m == "insert0" {
+                    if let Some(f) = &first {
+                        if !(p.hi <= f.lo) {
+                            ok = false;
+                            cx.fail(rule, &format!("{}/{}/{}", rule, alt_key(d, a), r), &lal(a), &format!("`{}.insert(0, {})` prepends a value that does not precede the list's first element in the alternative", r, sm::tsc(val)));
+                        }
+                    }
+                    first = Some(p);
+                } else {
+                    if let Some(l) = &last {
+                        if !(l.hi <= p.lo) && !(l.lo == p.lo && l.hi == p.hi) {
+                            ok = false;
+                            cx.fail(rule, &format!("{}/{}/{}", rule, alt_key(d, a), r), &lal(a), &format!("`{}.{}({})` appends a value whose binding comes BEFORE what the list already holds: the list is no longer in source order", r, m, sm::tsc(val)));
+                        }
+                    }
+                    if first.is_none() {
+                        first = Some(p.clone());
+                    }
+                    last = Some(p);
+                }
+            }
+            if ok && n > 0 {
+                cx.ok(rule, &format!("{}: `{}` grows in source order ({} appends)", alt_key(d, a), r, n));
+            }
+        }
+    }
+}
+
+/// E1: which expression level each position of the grammar accepts.
+/// The reviewed wiring is refdata/expr_wiring.json (regenerate with `rpverif dump-expr-wiring` from the reviewed tree):
+/// per nonterminal alternative, keyed by its condition and its symbol sequence with every expression-typed
+/// nonterminal masked, the list of expression nonterminals that stand at the masked places.
+pub fn expr_wiring_of(g: &Grammar) -> Vec<(String, String, String, Vec<String>)> {
+    fn is_expr_nt(g: &Grammar, name: &str) -> bool {
+        g.def(name).map_or(false, |d| d.ty.as_deref().map_or(false, |t| t.replace(' ', "") == "ast::Expr"))
+    }
+    fn mask(g: &Grammar, s: &crate::grammar::Sym, params: &[String], levels: &mut Vec<String>) -> String {
+        use crate::grammar::SymKind;
+        let base = match &s.kind {
+            SymKind::Term(t) => format!("{:?}", t),
+            SymKind::Name(n) => {
+                if is_expr_nt(g, n) {
+                    levels.push(n.clone());
+                    "E".to_string()
+                } else if params.contains(n) {
+                    // a macro parameter stands for whatever the instantiation passes
+                    "P".to_string()
+                } else {
+                    n.clone()
+                }
+            }
+            SymKind::Macro(n, args) => {
+                if is_expr_nt(g, n) {
+                    levels.push(format!("{}<{}>", n, args.iter().map(crate::grammar::sym_text).collect::<Vec<_>>().join(", ")));
+                    "E".to_string()
+                } else {
+                    format!("{}<{}>", n, args.iter().map(|x| mask(g, x, params, levels)).collect::<Vec<_>>().join(", "))
+                }
+            }
+            SymKind::Group(v) => format!("({})", v.iter().filter(|x| !matches!(x.kind, SymKind::Lookahead | SymKind::Lookbehind)).map(|x| mask(g, x, params, levels)).collect::<Vec<_>>().join(" ")),
+            SymKind::Lookahead => "@L".into(),
+            SymKind::Lookbehind => "@R".into(),
+        };
+        format!("{}{}", base, s.rep)
+    }
+    let mut out = vec![];
+    for d in &g.defs {
+        for a in &d.alts {
+            let mut levels = vec![];
+            // position captures are not part of the language
+            let seq: Vec<String> = a.syms.iter().filter(|s| !matches!(s.kind, crate::grammar::SymKind::Lookahead | crate::grammar::SymKind::Lookbehind)).map(|s| mask(g, s, &d.params, &mut levels)).collect();
+            let cond = a.cond.as_ref().map(|(p, eq, lit)| format!("{}{}{}", p, if *eq { "==" } else { "!=" }, lit)).unwrap_or_default();
+            // only alternatives that accept an expression somewhere are wired
+            if !levels.is_empty() {
+                out.push((d.name.clone(), cond, seq.join(" "), levels));
+            }
+        }
+    }
+    out
+}
+
+pub fn expr_wiring(cx: &mut Ctx, g: &Grammar, rule: &str) {
+    cx.rule(rule, "precedence wiring of the grammar: every place where an alternative accepts an expression names the same expression level as in the reviewed grammar (refdata/expr_wiring.json: per alternative — identified by its nonterminal, its macro condition and its symbol sequence with expression nonterminals masked — the expression nonterminals at the masked places); a level that is narrower rejects valid programs or makes acceptance depend on redundant parentheses, a wider one accepts invalid programs, a swapped pair changes associativity; alternatives added, removed or re-conditioned fail closed");
+    cx.floor(rule, 120);
+    let refd = match tables::refdata(&cx.verif, "expr_wiring.json") {
+        Ok(v) => v,
+        Err(e) => return cx.anchor_missing(rule, &e),
+    };
+    cx.refdata.insert("expr_wiring.json".into());
+    let mut want: BTreeMap<(String, String, String), Vec<Vec<String>>> = BTreeMap::new();
+    for r in refd.as_array().cloned().unwrap_or_default() {
+        let k = (r[0].as_str().unwrap_or("").to_string(), r[1].as_str().unwrap_or("").to_string(), r[2].as_str().unwrap_or("").to_string());
+        let lv: Vec<String> = r[3].as_array().map(|a| a.iter().filter_map(|x| x.as_str().map(|s| s.to_string())).collect()).unwrap_or_default();
+        want.entry(k).or_default().push(lv);
+    }
+    let mut got: BTreeMap<(String, String, String), Vec<Vec<String>>> = BTreeMap::new();
+    for (d, c, seq, lv) in expr_wiring_of(g) {
+        got.entry((d, c, seq)).or_default().push(lv);
+    }
+    for (k, lv) in &got {
+        let mut a = lv.clone();
+        a.sort();
+        match want.get(k) {
+            Some(w) => {
+                let mut b = w.clone();
+                b.sort();
+                if a == b {
+                    for _ in 0..a.len() {
+                        cx.ok_trivial(rule);
+                    }
+                } else {
+                    cx.fail(rule, &format!("{}/{}/{}", rule, k.0, k.2), "parser/src/python.lalrpop", &format!("{}: the alternative `{}`{} takes the expression level(s) {:?}; the reviewed grammar has {:?} there", k.0, k.2, if k.1.is_empty() { String::new() } else { format!(" if {}", k.1) }, a, b));
+                }
+            }
+            None => cx.fail(rule, &format!("{}/{}/{}/new", rule, k.0, k.2), "parser/src/python.lalrpop", &format!("{}: the alternative `{}`{} is not in the reviewed wiring (new, re-conditioned or restructured alternative): review refdata/expr_wiring.json (fail closed)", k.0, k.2, if k.1.is_empty() { String::new() } else { format!(" if {}", k.1) })),
+        }
+    }
+    for k in want.keys() {
+        if !got.contains_key(k) {
+            cx.fail(rule, &format!("{}/{}/{}/missing", rule, k.0, k.2), "parser/src/python.lalrpop", &format!("{}: the reviewed alternative `{}`{} no longer exists (fail closed)", k.0, k.2, if k.1.is_empty() { String::new() } else { format!(" if {}", k.1) }));
+        }
+    }
+    cx.ok(rule, "every alternative's expression levels agree with the reviewed wiring");
+}
